@@ -261,16 +261,18 @@ func (rg *vC17RaftRig) agreedPeers(d time.Duration) []int {
 }
 
 // the pinset once all running members serve the same one
-func (rg *vC17RaftRig) agreedPinset(members []int, d time.Duration) []vC04Pin {
+func (rg *vC17RaftRig) agreedPinset(members []int, d time.Duration, prev []vC04Pin) []vC04Pin {
 	deadline := time.Now().Add(d)
-	var last []vC04Pin
+	last := prev // nobody left to ask: the pinset is what it was
 	for {
 		var ref []vC04Pin
 		ok := true
+		asked := 0
 		for _, i := range members {
 			if !rg.running(i) {
 				continue
 			}
+			asked++
 			ps, err := vc04Pinset(context.Background(), rg.peers[i].cl, rg.t0)
 			if err != nil {
 				ok = false
@@ -285,7 +287,7 @@ func (rg *vC17RaftRig) agreedPinset(members []int, d time.Duration) []vC04Pin {
 		if ref != nil {
 			last = ref
 		}
-		if (ref != nil && ok) || time.Now().After(deadline) {
+		if (ref != nil && ok) || asked == 0 || time.Now().After(deadline) {
 			if last == nil {
 				last = []vC04Pin{}
 			}
@@ -399,7 +401,8 @@ func vC17RunRaft(c *vC17Case) (obs *vC17Obs, term string, panicked interface{}) 
 			panic(err)
 		}
 	}
-	obs.Initial = rg.agreedPinset(members, 20*time.Second)
+	obs.Initial = rg.agreedPinset(members, 20*time.Second, nil)
+	pinsNow := obs.Initial
 	peersNow := append([]int{}, members...)
 	outs := make([]int, len(c.Ops))
 	resolved := make([]vC17Op, len(c.Ops))
@@ -484,7 +487,8 @@ func vC17RunRaft(c *vC17Case) (obs *vC17Obs, term string, panicked interface{}) 
 			}
 		}
 		rg.mu.Unlock()
-		oo.Pinset = rg.agreedPinset(after, 20*time.Second)
+		oo.Pinset = rg.agreedPinset(after, 20*time.Second, pinsNow)
+		pinsNow = oo.Pinset
 		if k == len(c.Ops)-1 {
 			time.Sleep(300 * time.Millisecond) // negative expectation, once per script: nobody else stops by itself
 		}
